@@ -288,7 +288,9 @@ fn gen_router_cache(rng: &mut Rng) -> Value {
             rules.push(json!({"id": format!("s{}", i), "rank": rng.below(3), "status_code": 301, "target": "/static-target", "source": {"path": "/static"}}));
         } else {
             let t = rng.pick(RC_TEMPLATES);
-            let host: Value = if rng.chance(1, 4) { json!("@h.example.org") } else { Value::Null };
+            // Greek capital sigma: str::to_lowercase gives a FINAL sigma at the end of a word, the regex crate's case folding
+            // treats the three sigmas alike; two such hosts share the plain-text prefix "ΠΡΟΣ"
+            let host: Value = match rng.below(8) { 0 | 1 => json!("@h.example.org"), 2 => json!("\u{3a0}\u{3a1}\u{39f}\u{3a3}@h.example.org"), 3 => json!("\u{3a0}\u{3a1}\u{39f}\u{3a3}-@h.example.org"), _ => Value::Null };
             let mut markers = vec![json!({"name": "name", "regex": t.1})];
             if !host.is_null() { markers.push(json!({"name": "h", "regex": "[a-z]+"})); }
             rules.push(json!({"id": format!("m{}", i), "rank": rng.below(3), "status_code": 301, "target": if host.is_null() { json!(t.2) } else { json!(format!("https://@h.example.net{}", t.2)) },
@@ -299,7 +301,7 @@ fn gen_router_cache(rng: &mut Rng) -> Value {
     let limits: Vec<Value> = (0..3).map(|_| match rng.below(6) { 0 => Value::Null, 1 => json!(0), 2 => json!(1), 3 => json!(2), 4 => json!(5), _ => json!(1000) }).collect();
     let late = { let t = rng.pick(RC_TEMPLATES); json!({"id": "late", "rank": 1, "status_code": 302, "target": t.2, "source": {"path": t.0}, "markers": [{"name": "name", "regex": t.1}]}) };
     json!({"kind": "router_cache", "cfg": {"ignore_host_case": rng.chance(1, 2), "ignore_path_and_query_case": rng.chance(1, 2)}, "rules": rules, "limits": limits, "late": late,
-           "hosts": [Value::Null, json!("shop.example.org")]})
+           "hosts": [Value::Null, json!("shop.example.org"), json!("\u{3c0}\u{3c1}\u{3bf}\u{3c3}ab.example.org"), json!("\u{3a0}\u{3a1}\u{39f}\u{3a3}-ab.example.org")]})
 }
 
 fn run_router_cache(id: usize, input: &Value) {
